@@ -6,9 +6,14 @@ Tie: (1) `PersistenceImager.transform` on every call style (one array, list of l
          exactly at Rat with the uniform kernel on dyadic inputs (structure of the answer and every pixel, exact equality);
          `_ensure_iterable` against `ensureIterable`;
      (2) the related-input laws of the statement evaluated on the real code for all kernel / weight kinds (generators of C04).
-[T]: schedules — `transform(..., n_jobs=k)` compared bit-for-bit with the serial result.  Worker scheduling is runtime
+[T]: schedules — `transform(..., n_jobs=k)` (k in {1,2,4,-1}, thorough also {3,8,16,-2}; collections of 1-17 diagrams and
+     collections of 200+ small diagrams of mixed sizes) compared with the serial result.  Worker scheduling is runtime
      behaviour; the functional model is an ordered map (joblib's contract) and cannot exhibit it, so that quantifier is
      covered by this test only.
+Verdict vs correspondence: "the same image" is decided to rounding (1e-12 x the total absolute weight of the diagram, relative,
+     no floor).  Agreement to rounding but not bit for bit between two calls of the real code (a batched / re-associated
+     accumulation), `transform([])` returning an empty list instead of zeros, a tuple instead of a list, a renamed private
+     helper or mesh attribute: correspondence breaks (`no-failing-input-found`), never a claimed failing input.
 """
 import math
 import numpy as np
@@ -21,12 +26,13 @@ LEVEL = "proof"
 RULE = ("configurations and diagrams from the C04 generators (non-square grids, all kernel and weight kinds, points inside / on mesh "
         "lines / outside / diagonal / duplicated, scale 2^-10..2^10); per configuration 2-4 diagrams of 0-6 points; every law is "
         "evaluated on each; call styles: ndarray, list of lists, list/tuple/3-D array of diagrams, empty (0,2) array, [], collections "
-        "with an empty first or middle diagram; n_jobs in {None,1,2,4} (+3,8,16 thorough). non-trivial = at least two diagrams with a "
-        "point of non-zero weight and kernel mass inside the grid; distinct by digest of (configuration, diagrams)")
+        "with an empty first or middle diagram; n_jobs in {None,1,2,4,-1} (+3,8,16,-2 thorough) on collections of 1-17 diagrams and on "
+        "collections of 200-260 (thorough 400-1200) diagrams of 0-9 points. non-trivial = at least two diagrams with a "
+        "point of non-zero weight and kernel mass inside the grid; each kernel kind once with a 257-600-point diagram; distinct by digest of (configuration, diagrams)")
 ASSUMPTIONS = [
-    "joblib.Parallel(n_jobs)(delayed(f)(x) for x in xs) returns [f(x) for x in xs] in order (its contract; exercised bit-for-bit by the [T] schedule stream, not provable about the runtime)",
+    "joblib.Parallel(n_jobs)(delayed(f)(x) for x in xs) returns [f(x) for x in xs] in order (its contract; exercised by the [T] schedule stream — verdict to rounding, bits as a correspondence signal — not provable about the runtime)",
     "the caller passes one (n,2) diagram or an iterable of (n,2) diagrams (what the docstring allows); other nestings are outside the model",
-    "weights and kernel act elementwise; float rounding is outside the theorems (additivity/permutation compared to 1e-12*total weight, the call-style laws bit-for-bit)",
+    "weights and kernel act elementwise; float rounding is outside the theorems: every law that compares two images is decided to 1e-12 x total absolute weight; a difference in the last bits only between two call styles / schedules is reported as a correspondence break without a failing input",
 ]
 TRUSTED = ["joblib/loky process pool as an ordered map"]
 TOL = 1e-12
@@ -37,6 +43,36 @@ CORE_THEOREMS = ["PersimVerif.C11." + n for n in (
     "image_append", "image_perm", "zero_weight_drops", "zero_weight_filter", "empty_is_zero", "transform_dgm", "transform_coll",
     "single_vs_collection", "collection_of_singles", "nonneg", "total_le_weight", "nonneg_uniform", "nonneg_zero_cov",
     "total_le_weight_uniform", "total_le_weight_zero_cov")]
+
+
+_CORR_SEEN = set()
+
+
+def n_found(ctx):
+    """violations with a failing input of the property (correspondence-only reports do not count towards the early stop:
+       after a broken correspondence the search for a real failing input goes on)"""
+    return sum(1 for _, f in ctx.violations if f)
+
+
+def corr_once(ctx, key, what, case):
+    """a correspondence break (code and model / the code's own other call differ where the statement does not decide):
+       reported once per kind, never as a failing input"""
+    if key in _CORR_SEEN:
+        ctx.count("correspondence_only:" + key)
+        return
+    _CORR_SEEN.add(key)
+    ctx.count("correspondence_only:" + key)
+    ctx.violation(what, case, found_input=False, correspondence=key)
+
+
+def mesh_of(pim):
+    """pixel boundaries per axis: the imager's private mesh if it has one, else what the public attributes say"""
+    res = tuple(int(x) for x in pim.resolution)
+    bp, pp = getattr(pim, "_bpnts", None), getattr(pim, "_ppnts", None)
+    if bp is None or pp is None:
+        bp = np.linspace(pim.birth_range[0], pim.birth_range[1], res[0] + 1)
+        pp = np.linspace(pim.pers_range[0], pim.pers_range[1], res[1] + 1)
+    return [float(x) for x in bp], [float(x) for x in pp], res
 
 
 def imager(case):
@@ -63,6 +99,19 @@ def aclose(a, b, atol):
     return a.shape == b.shape and bool(np.allclose(a, b, rtol=0, atol=atol, equal_nan=True))
 
 
+def both(a, b, atol):
+    """(agree to the rounding-level tolerance `atol` = the property's verdict, agree bit for bit = correspondence only)"""
+    return aclose(a, b, atol), aeq(a, b)
+
+
+def is_empty_result(v, res):
+    """what `transform` may return for an EMPTY COLLECTION `[]`: the statement fixes only the image of an empty DIAGRAM, so
+       an empty sequence of images is as good as the zero image of the configured resolution the present code returns"""
+    if isinstance(v, np.ndarray) and v.shape == tuple(res):
+        return not v.any()
+    return isinstance(v, (list, tuple, np.ndarray)) and len(v) == 0
+
+
 def rel_scale(ws):
     """total absolute weight (finite ones), NOT floored at 1: with tiny weights an absolute tolerance accepts anything"""
     return max(1e-300, sum(abs(x) for x in ws if math.isfinite(x)))
@@ -78,29 +127,26 @@ def total_weight(case, dgm):
 
 def styles_exact(ctx):
     r = ctx.rng
-    ensure = common.pm("images").PersistenceImager._ensure_iterable
+    ensure = getattr(common.pm("images").PersistenceImager, "_ensure_iterable", None)   # private helper: correspondence only
     items, lines = [], []
     for it in range(ctx.n(400, 5000)):
         case = c04.gen_case(ctx, kind="uniform", dyadic=True)
         pim = imager(case)
-        bpn, ppn, res = [float(x) for x in pim._bpnts], [float(x) for x in pim._ppnts], tuple(int(x) for x in pim.resolution)
+        bpn, ppn, res = mesh_of(pim)
         STYLES = ["array", "lol", "list_of_arrays", "list_of_lol", "tuple_of_arrays", "array3d", "empty_array", "empty_list",
                   "first_empty", "middle_empty", "all_empty", "single_in_list"]
         style = STYLES[it % len(STYLES)] if it < 2 * len(STYLES) else r.choice(STYLES)     # every style first, then random
         k = r.randint(1, 4)
         dgms = [c04.more_dgm(ctx, case) for _ in range(k)]
         if style in ("array", "lol"):
-            d = case["dgm"] or c04.more_dgm(ctx, case, n=2)
-            arg = arr(d) if style == "array" else [list(p) for p in d]
-            inp = ["dgm", d]
+            inp = ["dgm", case["dgm"] or c04.more_dgm(ctx, case, n=2)]
         elif style == "empty_array":
-            arg, inp = np.zeros((0, 2)), ["dgm", []]
+            inp = ["dgm", []]
         elif style == "empty_list":
-            arg, inp = [], ["coll", []]
+            inp = ["coll", []]
         elif style == "array3d":
             n = r.randint(1, 3)
-            dgms = [c04.more_dgm(ctx, case, n=n) for _ in range(k)]
-            arg, inp = np.array(dgms, dtype=np.float64).reshape(k, n, 2), ["coll", dgms]
+            inp = ["coll", [c04.more_dgm(ctx, case, n=n) for _ in range(k)]]
         else:
             if style == "first_empty":
                 dgms[0] = []
@@ -110,13 +156,8 @@ def styles_exact(ctx):
                 dgms = [[] for _ in dgms]
             elif style == "single_in_list":
                 dgms = [dgms[0] or c04.more_dgm(ctx, case, n=1)]
-            if style == "list_of_lol" and all(len(d) > 0 for d in dgms):
-                arg = [[list(p) for p in d] for d in dgms]
-            elif style == "tuple_of_arrays":
-                arg = tuple(arr(d) for d in dgms)
-            else:
-                arg = [arr(d) for d in dgms]
             inp = ["coll", dgms]
+        arg = make_arg(style, inp)
         nj = r.choice([None, None, 1])
         ws = c04.weight_spec(case["weight"])
         ws = ["pers", int(ws[1])] if ws[0] == "pers" else ws
@@ -136,15 +177,7 @@ def styles_exact(ctx):
         ctx.case({"op": "styles", "style": style, "input": inp, "n_jobs": nj, **{k: case[k] for k in ("birth_range", "pers_range", "pixel_size", "kernel", "weight", "skew")}},
                  nontrivial=inp[0] == "coll" and len(inp[1]) >= 2, sample_every=41)
         ctx.count("style:" + style)
-        # canonical form of the code's answer
-        if st == "err":
-            code = "err:" + v
-        elif isinstance(v, np.ndarray):
-            code = ["img", v.tolist()]
-        elif isinstance(v, list) and all(isinstance(x, np.ndarray) for x in v):
-            code = ["imgs", [x.tolist() for x in v]]
-        else:
-            code = ["other:%s" % type(v).__name__, common.tolist(v)]
+        code = canon(st, v)
         ok = same_exact(code, ans)
         # _ensure_iterable
         if est == "ok":
@@ -158,12 +191,50 @@ def styles_exact(ctx):
         fail = style_laws(case, inp, code, res, nj)
         what = ("transform(%s) differs from the model's transform" % style) if not ok else \
             ("_ensure_iterable gives %r, model %r" % (ecode, eans))
-        ctx.violation("%s; %s" % (what, fail or "no law of the statement fails on this input"),
-                      {"op": "styles", "style": style, "input": inp, "n_jobs": nj, **case} if fail else
-                      {"correspondence": "img.coll", "line": lines[2 * idx][:1500], "code": code, "model": ans, "style": style},
-                      found_input=fail is not None, correspondence="img.coll")
-        if len(ctx.violations) > 5:
+        if fail:
+            ctx.violation("%s; %s" % (what, fail), {"op": "styles", "style": style, "input": inp, "n_jobs": nj, **case},
+                          found_input=True, correspondence="img.coll")
+        else:
+            corr_once(ctx, ("img.coll:" + style) if not ok else "img.ensure",
+                      "%s; no law of the statement fails on this input" % what,
+                      {"correspondence": "img.coll", "line": lines[2 * idx][:1500], "code": code, "model": ans, "style": style})
+        if n_found(ctx) > 5:
             return
+
+
+def make_arg(style, inp):
+    """the argument handed to `transform` for a call style and the diagrams `inp` (also used by `replay`, so that a recorded
+       case is re-run in the call style it failed in)"""
+    d = inp[1]
+    if style == "array":
+        return arr(d)
+    if style == "lol":
+        return [list(p) for p in d]
+    if style == "empty_array":
+        return np.zeros((0, 2))
+    if style == "empty_list":
+        return []
+    if style == "array3d":
+        return np.array(d, dtype=np.float64).reshape(len(d), len(d[0]), 2)
+    if style == "list_of_lol" and all(len(x) > 0 for x in d):
+        return [[list(p) for p in x] for x in d]
+    if style == "tuple_of_arrays":
+        return tuple(arr(x) for x in d)
+    if style is None:                                   # replays written before the style was recorded
+        return arr(d) if inp[0] == "dgm" else [arr(x) for x in d]
+    return [arr(x) for x in d]
+
+
+def canon(st, v):
+    """canonical form of the code's answer.  A tuple (or other sequence) of images is tagged `imgs:<type>`: the statement does
+       not fix the container type, so the laws accept it and only the comparison with the model (a list) notices"""
+    if st == "err":
+        return "err:" + v
+    if isinstance(v, np.ndarray) and v.ndim == 2:
+        return ["img", v.tolist()]
+    if isinstance(v, (list, tuple)) and all(isinstance(x, np.ndarray) for x in v):
+        return ["imgs" if isinstance(v, list) else "imgs:%s" % type(v).__name__, [x.tolist() for x in v]]
+    return ["other:%s" % type(v).__name__, common.tolist(v)]
 
 
 def same_exact(code, ans):
@@ -189,16 +260,22 @@ def content_laws(case, pim, d, a):
         if not aclose(a, parts, TOL * sc):
             return "image of a %d-point diagram is not the sum of the images of its two halves" % len(d)
     c = dict(case); c["dgm"] = d
-    bpn, ppn = [float(x) for x in pim._bpnts], [float(x) for x in pim._ppnts]
-    return c04.property_fails(c, a.tolist(), bpn, ppn, tuple(int(x) for x in pim.resolution))
+    bpn, ppn, res = mesh_of(pim)
+    return c04.property_fails(c, a.tolist(), bpn, ppn, res)
 
 
 def style_laws(case, inp, code, res, nj=None):
-    """the statement's laws on the real code for this input (independent of the model)"""
+    """the statement's laws on the real code for this input (independent of the model).  Images are compared to rounding
+       (1e-12 x total absolute weight): the statement's "the same image" is about values, a batched or re-associated
+       accumulation that differs in the last bit is a correspondence matter (the exact comparison with the model reports it)"""
     pim = imager(case)
     if isinstance(code, str):
         return "transform raised %s on a valid input" % code[4:]
-    if inp[0] == "dgm" or (inp[0] == "coll" and len(inp[1]) == 0):
+    if inp[0] == "coll" and len(inp[1]) == 0:
+        # an empty COLLECTION: the statement fixes the image of an empty diagram only; [] or zeros are both fine
+        v = np.asarray(code[1]) if code[0] == "img" else code[1]
+        return None if is_empty_result(v, res) else "transform([]) gives neither an empty list nor an all-zero image of the configured resolution"
+    if inp[0] == "dgm":
         if code[0] != "img":
             return "a single diagram did not give a single image (got %s)" % code[0]
         a = np.asarray(code[1])
@@ -207,18 +284,19 @@ def style_laws(case, inp, code, res, nj=None):
         d = inp[1]
         if len(d) == 0:
             return None if not a.any() else "empty diagram gives a non-zero image"
+        sc = rel_scale(total_weight(case, d))
         inside = T(pim, [arr(d)], case["skew"])
-        if not (isinstance(inside, list) and len(inside) == 1 and aeq(inside[0], a)):
+        if not (isinstance(inside, (list, tuple)) and len(inside) == 1 and aclose(inside[0], a, TOL * sc)):
             return "image of the diagram alone (n_jobs=%s) differs from its image inside a collection (serial)" % nj
         return content_laws(case, pim, d, a)
-    if code[0] != "imgs" or len(code[1]) != len(inp[1]):
-        return "a collection of %d diagrams did not give a list of %d images" % (len(inp[1]), len(inp[1]))
+    if not code[0].startswith("imgs") or len(code[1]) != len(inp[1]):
+        return "a collection of %d diagrams did not give %d images" % (len(inp[1]), len(inp[1]))
     for d, m in zip(inp[1], code[1]):
         a = np.asarray(m)
         if a.shape != tuple(res):
             return "image shape %s is not the configured resolution %s" % (a.shape, tuple(res))
         alone = T(pim, arr(d), case["skew"])
-        if not aeq(alone, a):
+        if not aclose(alone, a, TOL * rel_scale(total_weight(case, d))):
             return "image inside the collection (n_jobs=%s) differs from the image of the diagram alone (serial)" % nj
         f = content_laws(case, pim, d, a)
         if f:
@@ -228,82 +306,120 @@ def style_laws(case, inp, code, res, nj=None):
 
 # ----------------------------------------------------------------------------- (2) laws on the real code
 
+def eval_laws(case, A, B, C, perm, mixed, with_fit):
+    """every law of the statement on the real code for one configuration and the diagrams A, B, C; `perm` a reordering of A+B,
+       `mixed` = A with zero-weight points inserted at recorded positions (or None).  Returns {law: (holds, bit_for_bit)}:
+       `holds` is the verdict (images agree to 1e-12 x the total absolute weight of the diagrams involved — rounding level,
+       relative, no floor); `bit_for_bit` False with `holds` True means the two calls agree to rounding only, which the
+       statement allows (a batched / re-associated accumulation) and which is reported as a correspondence break.
+       Used by `laws` and by `replay`, so a recorded failure of ANY law is re-evaluated."""
+    pim = imager(case)
+    res = tuple(int(x) for x in pim.resolution)
+    sk = case["skew"]
+    wsA, wsB, wsC = total_weight(case, A), total_weight(case, B), total_weight(case, C)
+    scA, scB, scC, sc = rel_scale(wsA), rel_scale(wsB), rel_scale(wsC), rel_scale(wsA + wsB)
+    IA, IB, IC = T(pim, arr(A), sk), T(pim, arr(B), sk), T(pim, arr(C), sk)
+    out = {}
+
+    def allb(*pairs):
+        return all(p[0] for p in pairs), all(p[1] for p in pairs)
+    # union = sum; permutation  (tolerance only: the statement is about real-number sums)
+    IU = T(pim, arr(A + B), sk)
+    out["union_is_sum"] = (aclose(IU, IA + IB, TOL * sc), True)
+    out["permutation"] = (aclose(T(pim, arr(perm), sk), IU, TOL * sc), True)
+    # zero-weight points contribute nothing
+    if mixed is not None:
+        out["zero_weight_drops"] = both(T(pim, arr(mixed), sk), IA, TOL * scA)
+    # empty diagram: zeros of the configured resolution — alone and inside a collection; `[]` (an empty COLLECTION, about
+    # which the statement says nothing) may give zeros or an empty list
+    E0, E1 = T(pim, np.zeros((0, 2)), sk), T(pim, [], sk)
+    EC = T(pim, [arr(A), np.zeros((0, 2))], sk)
+    out["empty_is_zero_of_resolution"] = (
+        isinstance(E0, np.ndarray) and E0.shape == res and not E0.any() and is_empty_result(E1, res)
+        and len(EC) == 2 and np.shape(EC[1]) == res and not np.any(EC[1]),
+        isinstance(E1, np.ndarray))
+    # alone vs inside a collection (arrays and list-of-lists), order of the collection kept
+    coll = T(pim, [arr(A), arr(B), arr(C)], sk)
+    if isinstance(coll, (list, tuple)) and len(coll) == 3 and isinstance(IA, np.ndarray) and IA.shape == res:
+        out["alone_vs_collection"] = allb(both(coll[0], IA, TOL * scA), both(coll[1], IB, TOL * scB), both(coll[2], IC, TOL * scC))
+    else:
+        out["alone_vs_collection"] = (False, False)
+    lol = T(pim, [list(map(list, A)), list(map(list, C))], sk)
+    if isinstance(lol, (list, tuple)) and len(lol) == 2:
+        out["list_of_lists_input"] = allb(both(lol[0], IA, TOL * scA), both(lol[1], IC, TOL * scC),
+                                          both(T(pim, list(map(list, A)), sk), IA, TOL * scA))
+    else:
+        out["list_of_lists_input"] = (False, False)
+    # birth-death with skew=True  ==  pre-converted birth-persistence with skew=False
+    bd = arr(A) if sk else np.column_stack([arr(A)[:, 0], arr(A)[:, 0] + arr(A)[:, 1]])
+    pre = np.column_stack([bd[:, 0], bd[:, 1] - bd[:, 0]])
+    out["skew_consistency"] = allb(both(T(pim, bd, True), T(pim, pre, False), TOL * scA),
+                                   both(T(pim, [bd, bd], True)[1], T(pim, [pre], False)[0], TOL * scA))
+    # the argument is not modified (the conversion happens on a private copy): bytes of the caller's array, exact
+    keep = arr(A); keep0 = keep.copy()
+    T(pim, keep, True); T(pim, [keep], True)
+    out["argument_untouched"] = (aeq(keep, keep0), True)
+    # non-negative weights: no negative pixel, total at most the total weight
+    if all(w >= 0 for w in wsA):
+        out["nonneg"] = (float(IA.min()) >= -TOL * scA, True)
+        out["total_le_weight"] = (float(IA.sum()) <= sum(wsA) + 1e-9 * scA, True)
+    # fit_transform = fit; transform   (and on a collection)
+    if with_fit:
+        p1, p2 = imager(case), imager(case)
+        with np.errstate(all="ignore"):
+            f1 = p1.fit_transform([arr(A), arr(C)], skew=sk)
+            p2.fit([arr(A), arr(C)], skew=sk)
+            f2 = p2.transform([arr(A), arr(C)], skew=sk)
+        out["fit_transform_is_fit_then_transform"] = allb(both(f1[0], f2[0], TOL * scA), both(f1[1], f2[1], TOL * scC)) \
+            if len(f1) == len(f2) == 2 else (False, False)
+    nt = sum(1 for ws in (wsA, wsB) if any(w != 0 for w in ws)) == 2 and float(np.abs(IA).sum()) > 0 and float(np.abs(IB).sum()) > 0
+    return out, nt
+
+
 def laws(ctx):
     r = ctx.rng
     for it in range(ctx.n(500, 6000)):
         case = c04.gen_case(ctx, kind=c04.KINDS[it % len(c04.KINDS)] if it < 24 else None)
-        pim = imager(case)
-        res = tuple(int(x) for x in pim.resolution)
-        sk = case["skew"]
         A = case["dgm"] or c04.more_dgm(ctx, case, n=2)
+        if 8 <= it < 16 and len(A) < 257:
+            # every kernel kind once with a diagram of a few hundred points (blocked / vectorised accumulations change behaviour
+            # beyond a block size; C04's generator draws this class only with probability 0.012)
+            A = c04.more_dgm(ctx, case, n=r.randint(257, 600))
+        if len(A) >= 257:
+            ctx.count("laws_diagrams_above_256_points")
         B = c04.more_dgm(ctx, case)
         C = c04.more_dgm(ctx, case, n=r.choice([1, 3]))
-        wsA, wsB = total_weight(case, A), total_weight(case, B)
-        sc = rel_scale(wsA + wsB)
-        IA, IB = T(pim, arr(A), sk), T(pim, arr(B), sk)
-        bad = []
-
-        def chk(name, ok):
-            ctx.test(name, bool(ok))
-            if not ok:
-                bad.append(name)
-        nt = sum(1 for ws in (wsA, wsB) if any(w != 0 for w in ws)) == 2 and float(np.abs(IA).sum()) > 0 and float(np.abs(IB).sum()) > 0
-        ctx.case({"op": "laws", "A": A, "B": B, "C": C, **{k: case[k] for k in ("birth_range", "pers_range", "pixel_size", "kernel", "weight", "skew")}},
-                 nontrivial=nt, sample_every=59)
-        ctx.count("kernel:" + case["kind"]); ctx.count("weight:" + case["weight"]["kind"])
-        # union = sum
-        IU = T(pim, arr(A + B), sk)
-        chk("union_is_sum", aclose(IU, IA + IB, TOL * sc))
-        # permutation
         perm = list(A + B); r.shuffle(perm)
-        chk("permutation", aclose(T(pim, arr(perm), sk), IU, TOL * sc))
-        # zero-weight points contribute nothing
         zs = zero_weight_points(case, r)
+        mixed = None
         if zs:
             mixed = list(A)
             for z in zs:
                 mixed.insert(r.randint(0, len(mixed)), z)
-            chk("zero_weight_drops", aeq(T(pim, arr(mixed), sk), IA))
             ctx.count("zero_weight_cases")
-        # empty diagram: zeros of the configured resolution — alone, as [], and inside a collection
-        E0, E1 = T(pim, np.zeros((0, 2)), sk), T(pim, [], sk)
-        EC = T(pim, [arr(A), np.zeros((0, 2))], sk)
-        chk("empty_is_zero_of_resolution", isinstance(E0, np.ndarray) and E0.shape == res and not E0.any() and
-            isinstance(E1, np.ndarray) and E1.shape == res and not E1.any() and EC[1].shape == res and not EC[1].any())
-        # alone vs inside a collection (arrays and list-of-lists), order of the collection kept
-        coll = T(pim, [arr(A), arr(B), arr(C)], sk)
-        IC = T(pim, arr(C), sk)
-        chk("alone_vs_collection", isinstance(coll, list) and len(coll) == 3 and aeq(coll[0], IA)
-            and aeq(coll[1], IB) and aeq(coll[2], IC) and isinstance(IA, np.ndarray) and IA.shape == res)
-        lol = T(pim, [list(map(list, A)), list(map(list, C))], sk)
-        chk("list_of_lists_input", isinstance(lol, list) and len(lol) == 2 and aeq(lol[0], IA) and aeq(lol[1], IC)
-            and aeq(T(pim, list(map(list, A)), sk), IA))
-        # birth-death with skew=True  ==  pre-converted birth-persistence with skew=False
-        bd = arr(A) if sk else np.column_stack([arr(A)[:, 0], arr(A)[:, 0] + arr(A)[:, 1]])
-        pre = np.column_stack([bd[:, 0], bd[:, 1] - bd[:, 0]])
-        chk("skew_consistency", aeq(T(pim, bd, True), T(pim, pre, False))
-            and aeq(T(pim, [bd, bd], True)[1], T(pim, [pre], False)[0]))
-        # the argument is not modified (the conversion happens on a private copy)
-        keep = arr(A); keep0 = keep.copy()
-        T(pim, keep, True); T(pim, [keep], True)
-        chk("argument_untouched", aeq(keep, keep0))
-        # non-negative weights: no negative pixel, total at most the total weight
-        if all(w >= 0 for w in wsA):
-            chk("nonneg", float(IA.min()) >= -TOL * sc)
-            chk("total_le_weight", float(IA.sum()) <= sum(wsA) + 1e-9 * sc)
-        # fit_transform = fit; transform   (and on a collection)
-        if len(A) >= 1 and it % 3 == 0:
-            p1, p2 = imager(case), imager(case)
-            with np.errstate(all="ignore"):
-                f1 = p1.fit_transform([arr(A), arr(C)], skew=sk)
-                p2.fit([arr(A), arr(C)], skew=sk)
-                f2 = p2.transform([arr(A), arr(C)], skew=sk)
-            chk("fit_transform_is_fit_then_transform", len(f1) == len(f2) == 2 and all(aeq(x, y) for x, y in zip(f1, f2)))
+        with_fit = len(A) >= 1 and it % 3 == 0
+        out, nt = eval_laws(case, A, B, C, perm, mixed, with_fit)
+        ctx.case({"op": "laws", "A": A, "B": B, "C": C, **{k: case[k] for k in ("birth_range", "pers_range", "pixel_size", "kernel", "weight", "skew")}},
+                 nontrivial=nt, sample_every=59)
+        ctx.count("kernel:" + case["kind"]); ctx.count("weight:" + case["weight"]["kind"])
+        for name, (ok, _) in out.items():
+            ctx.test(name, bool(ok))
+        bad = [n for n, (ok, _) in out.items() if not ok]
+        rounding_only = [n for n, (ok, bit) in out.items() if ok and not bit]
+        rec = {"op": "laws", "A": A, "B": B, "C": C, "perm": perm, "mixed": mixed, "zeros": zs, "with_fit": with_fit, **case}
         if bad:
-            ctx.violation("image law fails on the real code: %s" % ", ".join(bad),
-                          {"op": "laws", "A": A, "B": B, "C": C, "perm": perm, "zeros": zs, **case}, found_input=True, law=bad)
-            if len(ctx.violations) > 5:
+            ctx.violation("image law fails on the real code: %s" % ", ".join(bad), rec, found_input=True, law=bad)
+            if n_found(ctx) > 5:
                 return
+        for n in rounding_only:
+            if n == "empty_is_zero_of_resolution":
+                corr_once(ctx, "empty_collection", "transform([]) gives an empty sequence where the model gives the zero image; the "
+                          "statement fixes the image of an empty DIAGRAM only — correspondence only", {"correspondence": "empty_collection", **rec})
+                continue
+            corr_once(ctx, "bitwise:" + n,
+                      "%s: the two calls agree to rounding (1e-12 x total weight) but not bit for bit; the model is one function of "
+                      "the diagram, the statement's 'same image' holds — correspondence only" % n,
+                      {"correspondence": "bitwise:" + n, **rec})
 
 
 def zero_weight_points(case, r):
@@ -327,9 +443,32 @@ def zero_weight_points(case, r):
 
 # ----------------------------------------------------------------------------- [T] schedules
 
+def schedule_eval(case, dgms, nj):
+    """`transform(..., n_jobs=nj)` against the serial call, for the collection and for its first diagram alone.
+       -> (holds, bit_for_bit, which): verdict to rounding (1e-12 x the diagram's total absolute weight), bits as correspondence"""
+    pim = imager(case)
+    sk = case["skew"]
+    serial = T(pim, dgms, sk)
+    scs = [rel_scale(total_weight(case, d.tolist())) for d in dgms]
+    with np.errstate(all="ignore"):
+        st, par, _ = call(pim.transform, dgms, skew=sk, n_jobs=nj)
+    if st == "ok" and isinstance(par, (list, tuple)) and len(par) == len(serial):
+        prs = [both(a, b, TOL * sc) for a, b, sc in zip(par, serial, scs)]
+        ok, bit = all(p[0] for p in prs), all(p[1] for p in prs)
+    else:
+        ok, bit = False, False
+    one = T(pim, dgms[0], sk)
+    with np.errstate(all="ignore"):
+        st1, par1, _ = call(pim.transform, dgms[0], skew=sk, n_jobs=nj)
+    ok1, bit1 = both(par1, one, TOL * scs[0]) if (st1 == "ok" and isinstance(par1, np.ndarray)) else (False, False)
+    which = "collection" if not ok else ("single diagram" if not ok1 else None)
+    return ok and ok1, bit and bit1, which
+
+
 def schedules(ctx):
     r = ctx.rng
-    jobs = [1, 2, 4] + ([3, 8, 16] if ctx.thorough else [])
+    # -1 / -2: joblib's "all cores" / "all but one" — the negative values the docstring's n_jobs admits
+    jobs = [1, 2, 4, -1] + ([3, 8, 16, -2] if ctx.thorough else [])
     reps = ctx.n(6, 30)
     confs = []
     for i in range(reps):
@@ -338,27 +477,32 @@ def schedules(ctx):
         k = r.choice([1, 2, 3, 5, 8, 13]) if i else 17
         dgms = [arr(c04.more_dgm(ctx, case, n=r.choice([0, 1, 2, 4]))) for _ in range(k)]
         confs.append((case, dgms))
+    # collections with far more diagrams than workers x joblib's batch size (auto-batching groups fast tasks), sizes mixed so
+    # that any cost-based ordering of the tasks is a non-trivial permutation
+    for kind in ["scalar", "uniform"] + (["diag_ne", "user_logistic"] if ctx.thorough else []):
+        case = c04.gen_case(ctx, kind=kind)
+        k = r.randint(200, 260) if not ctx.thorough else r.randint(400, 1200)
+        dgms = [arr(c04.more_dgm(ctx, case, n=r.choice([0, 1, 1, 2, 3, 5, 9]))) for _ in range(k)]
+        confs.append((case, dgms))
+        ctx.count("schedule_large_collections")
     import os
     os.environ.setdefault("PYTHONWARNINGS", "ignore")      # inherited by the worker processes (they re-import persim)
     try:
         for nj in jobs:
             for case, dgms in confs:
-                pim = imager(case)
-                serial = T(pim, dgms, case["skew"])
-                with np.errstate(all="ignore"):
-                    st, par, _ = call(pim.transform, dgms, skew=case["skew"], n_jobs=nj)
-                ok = st == "ok" and isinstance(par, list) and len(par) == len(serial) and all(aeq(a, b) for a, b in zip(par, serial))
-                # a single diagram through the pool
-                one = T(pim, dgms[0], case["skew"])
-                with np.errstate(all="ignore"):
-                    st1, par1, _ = call(pim.transform, dgms[0], skew=case["skew"], n_jobs=nj)
-                ok1 = st1 == "ok" and isinstance(par1, np.ndarray) and aeq(par1, one)
-                ctx.test("n_jobs=%d_bitwise" % nj, ok and ok1)
+                ok, bit, which = schedule_eval(case, dgms, nj)
+                ctx.test("n_jobs=%d" % nj, ok)
                 ctx.count("schedule_runs")
-                if not (ok and ok1):
-                    ctx.violation("transform(n_jobs=%d) differs from the serial result (%s)" % (nj, "collection" if not ok else "single diagram"),
-                                  {"op": "schedule", "n_jobs": nj, "dgms": [d.tolist() for d in dgms], **case}, found_input=True, law="n_jobs")
+                ctx.count("schedule_diagrams", len(dgms))
+                rec = {"op": "schedule", "n_jobs": nj, "dgms": [d.tolist() for d in dgms], **case}
+                if not ok:
+                    ctx.violation("transform(n_jobs=%d) differs from the serial result (%s, %d diagrams)" % (nj, which, len(dgms)),
+                                  rec, found_input=True, law="n_jobs")
                     return
+                if not bit:
+                    corr_once(ctx, "bitwise:n_jobs", "transform(n_jobs=%d) agrees with the serial result to rounding but not bit for "
+                              "bit (joblib as an ordered map of one function gives equal bits) — correspondence only" % nj,
+                              {"correspondence": "bitwise:n_jobs", **rec})
     finally:
         try:
             from joblib.externals.loky import get_reusable_executor
@@ -375,10 +519,10 @@ def run(ctx):
     with cov:
         styles_exact(ctx)
     ctx.extra["branch_hits"] = c04.anchored_only(cov)
-    if len(ctx.violations) > 5:
+    if n_found(ctx) > 5:
         return
     laws(ctx)
-    if len(ctx.violations) > 5:
+    if n_found(ctx) > 5:
         return
     schedules(ctx)
     ctx.extra["schedules_note"] = ("n_jobs streams are tests of runtime behaviour: the model is an ordered map (joblib's contract) "
@@ -392,38 +536,33 @@ def replay(ctx, rep):
         pim = imager(c)
         res = tuple(int(x) for x in pim.resolution)
         inp = c["input"]
-        arg = arr(inp[1]) if inp[0] == "dgm" else [arr(d) for d in inp[1]]
-        st, v, _ = call(pim.transform, arg, skew=c["skew"], n_jobs=c.get("n_jobs"))
-        code = ("err:" + v) if st == "err" else (["img", v.tolist()] if isinstance(v, np.ndarray) else
-                                                 ["imgs", [np.asarray(x).tolist() for x in v]] if isinstance(v, list) else ["other", None])
+        arg = make_arg(c.get("style"), inp)                 # the recorded call style (tuple / list of lists / 3-D array ...)
+        with np.errstate(all="ignore"):
+            st, v, _ = call(pim.transform, arg, skew=c["skew"], n_jobs=c.get("n_jobs"))
+        code = canon(st, v)
         fail = style_laws(c, inp, code, res, c.get("n_jobs"))
-        print("code:", code if isinstance(code, str) else code[0], "| law check:", fail or "holds")
+        print("style:", c.get("style"), "| code:", code if isinstance(code, str) else code[0], "| law check:", fail or "holds")
         return fail is None
     if op == "schedule":
-        pim = imager(c)
         dgms = [arr(d) for d in c["dgms"]]
-        serial = T(pim, dgms, c["skew"])
-        st, par, _ = call(pim.transform, dgms, skew=c["skew"], n_jobs=c["n_jobs"])
-        ok = st == "ok" and len(par) == len(serial) and all(aeq(a, b) for a, b in zip(par, serial))
-        print("n_jobs=%s vs serial: %s" % (c["n_jobs"], "equal" if ok else "DIFFERENT"))
+        try:
+            ok, bit, which = schedule_eval(c, dgms, c["n_jobs"])
+        finally:
+            try:
+                from joblib.externals.loky import get_reusable_executor
+                get_reusable_executor().shutdown(wait=True)
+            except Exception:
+                pass
+        print("n_jobs=%s vs serial: %s" % (c["n_jobs"], ("equal" if bit else "equal to rounding") if ok else "DIFFERENT (%s)" % which))
         return ok
     if op == "laws":
-        pim = imager(c)
-        sk = c["skew"]
-        A, B = c["A"], c["B"]
-        sc = rel_scale(total_weight(c, A) + total_weight(c, B))
-        IA, IB, IU = T(pim, arr(A), sk), T(pim, arr(B), sk), T(pim, arr(A + B), sk)
-        coll = T(pim, [arr(A), arr(B)], sk)
-        res = tuple(int(x) for x in pim.resolution)
-        E = T(pim, np.zeros((0, 2)), sk)
-        checks = {"union_is_sum": aclose(IU, IA + IB, TOL * sc),
-                  "alone_vs_collection": isinstance(coll, list) and aeq(coll[0], IA) and aeq(coll[1], IB),
-                  "empty_is_zero_of_resolution": isinstance(E, np.ndarray) and E.shape == res and not E.any(),
-                  "permutation": aclose(T(pim, arr(c.get("perm", A + B)), sk), IU, TOL * sc)}
-        if c.get("zeros"):
-            checks["zero_weight_drops"] = aeq(T(pim, arr(list(A) + c["zeros"]), sk), IA)
-        print("laws:", checks, "(other laws: re-run `./check.py C11` with VERIF_SEED=%s)" % rep.get("seed"))
-        return all(checks.values())
+        A, B, C = c["A"], c["B"], c.get("C") or c["A"]
+        mixed = c.get("mixed")
+        if mixed is None and c.get("zeros"):               # replays written before the positions were recorded
+            mixed = list(A) + c["zeros"]
+        out, _ = eval_laws(c, A, B, C, c.get("perm", A + B), mixed, c.get("with_fit", len(A) >= 1))
+        print("laws (holds, bit for bit):", out)
+        return all(ok for ok, _ in out.values())
     print("correspondence replay: re-run `./check.py C11` with VERIF_SEED=%s" % rep.get("seed"))
     return True
 
@@ -443,10 +582,12 @@ MANIFEST = {
             "law evaluated on the real code for all kernel and weight kinds, including diagrams with points below the diagonal.",
     "note": "Trusted: Lean kernel + Mathlib (axioms propext/Classical.choice/Quot.sound); the correspondence harness; joblib.Parallel as an ordered "
             "map. 'Processed serially or by parallel workers, every n_jobs / worker scheduling' is runtime behaviour the functional model cannot "
-            "exhibit: it is covered ONLY by the [T] schedule stream (n_jobs in {1,2,4}, thorough also {3,8,16}, collections of 1-17 diagrams, "
-            "bit-for-bit against the serial result). Non-negativity and total <= total weight for the CORRELATED Gaussian (bvn_cdf) rest on "
+            "exhibit: it is covered ONLY by the [T] schedule stream (n_jobs in {1,2,4,-1}, thorough also {3,8,16,-2}, collections of 1-17 diagrams "
+            "and of 200+ small diagrams, against the serial result; verdict to rounding, a bit-level difference is a correspondence break). Non-negativity and total <= total weight for the CORRELATED Gaussian (bvn_cdf) rest on "
             "the hypotheses of `nonneg` / `total_le_weight` and are covered by the [T] streams `nonneg` / `total_le_weight` only. Float "
-            "rounding is outside the theorems (additivity / permutation compared to 1e-12 x total absolute weight, no floor at 1; NaN images "
-            "from a fractional power of a negative persistence compared as NaN).",
+            "rounding is outside the theorems (all image comparisons decided to 1e-12 x total absolute weight, no floor at 1; NaN images "
+            "from a fractional power of a negative persistence compared as NaN). What the statement leaves open is never a failing input: "
+            "`transform([])` (an empty COLLECTION) may give zeros or an empty list, the container may be a list or a tuple, private "
+            "helpers / mesh attributes are read for the correspondence only.",
     "technique": "Lean 4 theorems over a hand-written model + exact differential correspondence + metamorphic tests on the real code",
 }
